@@ -15,6 +15,8 @@ def run(rep, tier, seed):
     q = tier == "quick"
     mr = 1000 if q else None
     configs = [
+        dict(name="complex_data", module="MC_CTracer", maxinstr=2, maxhist=2, ops="OpsA1", points="PtsCx", seeds="NoSeeds", rec_kinds=("U", "A"), max_replay=mr),
+        dict(name="complex_data_buffered", module="MC_CTracer", maxinstr=2, maxhist=2, ops="OpsRevP", points="PtsCx", seeds="NoSeeds", prefix="buffered", rec_kinds=("U", "A"), max_replay=mr),
         dict(name="two_independents", maxinstr=2, maxhist=2, ops="OpsTwo", points="PtsTwo", seeds="NoSeeds", prefix="two", NI=2, rec_kinds=("U", "A", "V"), max_replay=mr),
         dict(name="core_fwd", maxinstr=3, maxhist=2, ops="OpsRec", points="PtsP1", seeds="NoSeeds", rec_kinds=("U", "A", "V"), max_replay=mr),
         dict(name="toggle", maxinstr=3, maxhist=1, ops="OpsToggle", points="PtsP1small", seeds="NoSeeds", rec_kinds=("U", "A", "V"), max_replay=mr),
